@@ -53,6 +53,11 @@ inductive Cmd
   | deploy (addr : Bytes)
   /-- a call whose payload is a stub-VM script; `fail` = the script ends in a VM error (`{"err":"vm"}`) -/
   | script (fail : Bool)
+  /-- a call of `aergo.system`: `stake` = the call is `v1stake` (the only one whose amount `ValidateWithSenderState`
+  compares with the balance); other calls (`v1unstake`, `v1voteBP`, `v1voteDAO`, …) carry `false` -/
+  | sys (stake : Bool)
+  /-- an `aergo.system` payload that is not a JSON call -/
+  | sysBad
 deriving DecidableEq, Repr
 
 /-- `types.Tx`: the body fields, the carried `Hash`, and three observed attributes (`size` = `proto.Size`,
@@ -653,7 +658,15 @@ def sigEnc (pk msg : Bytes) : Bytes := 1 :: (le 2 pk.length ++ pk ++ msg)
 /-- Accepts exactly the signature made with this (non-empty) key for this message. -/
 def idealVerify (pk msg sig : Bytes) : Bool := !pk.isEmpty && sig == sigEnc pk msg
 
+/-- The `aergo.system` branch of `ValidateWithSenderState` (types/transaction.go:327-336): the payload must decode as a
+call; only `v1stake` compares its amount with the balance. -/
+def stdSysCheck (t : Tx) (bal : Nat) : Option SErr :=
+  match t.cmd with
+  | .sys true => if beNat t.amount > bal then some .balance else none
+  | .sys false => none
+  | _ => some .payload
+
 def zeroFeeEnv (isPublic : Bool) (maxAER : Nat) : Env :=
-  { isPublic := isPublic, maxAER := maxAER, maxFee := fun _ _ => some 0, sysCheck := fun _ _ => none }
+  { isPublic := isPublic, maxAER := maxAER, maxFee := fun _ _ => some 0, sysCheck := stdSysCheck }
 
 end Aergo.Auth
